@@ -276,7 +276,7 @@ class StateWorld(Run):
         """a literal gate description on ascending qubits of the register."""
         n = self.n
         m = rng.randrange(1, min(n, nmax or n) + 1)
-        if rng.random() < 0.08:
+        if rng.random() < 0.08 and n <= 12:
             m = n      # a gate on the whole register takes the unmasked ("global") code path
         qubits = sorted(rng.sample(range(n), m))
         kinds = ["gen", "fmap", "bmap", "named", "fbmap"] + (["random"] if allow_random else [])
@@ -286,7 +286,8 @@ class StateWorld(Run):
             spec["G"] = rm.pstr(rm.rand_hermitian(rng, m))
             # clifford_rotation_gate condenses to the support: keep full support here
             # by construction when 'condense' is set
-            spec["ctor"] = rng.choice(["set_generator", "rotation_gate", "rotation_gate_q"])
+            spec["ctor"] = rng.choice(["set_generator", "set_generator", "rotation_gate", "rotation_gate", "rotation_gate_q",
+                                       "rotation_gate_q", "set_generator_mono"])
             if spec["ctor"] == "rotation_gate_q":
                 # clifford_rotation_gate(generator on m letters, qubits=ascending array): the gate
                 # lives on the qubits where the generator is non-trivial
@@ -380,7 +381,13 @@ class StateWorld(Run):
                 if len(G[0]) != len(q):
                     raise Skip()
                 gate = pc.CliffordGate(*q)
-                gate.set_generator(self.S.mk_pauli(G))
+                if spec.get("ctor") == "set_generator_mono" and self.S.name == "numpy":
+                    # the generator handed over as a PauliMonomial (a Hamiltonian term H[k], c * pauli):
+                    # set_generator accepts it (it is a Pauli); the rotation is generated by its Pauli part
+                    gate.set_generator(pc.PauliMonomial(sut.g_of(G[0]), int(G[1])).set_c(spec.get("c", 1.0)))
+                    self.stats["config:generator_is_a_monomial"] += 1
+                else:
+                    gate.set_generator(self.S.mk_pauli(G))
                 loc = G
             m = len(q)
             fwd = [rm.rotate(p, loc) for p in rm.identity_images(m)]
